@@ -8,7 +8,7 @@ use crate::props::c04::scalar_from_seed;
 use crate::refimpl::{self, Ref};
 use crate::with_suite;
 use bls12_381_plus::group::Curve;
-use bls12_381_plus::Scalar;
+use bls12_381_plus::{G1Projective, G2Projective, Scalar};
 use proptest::prelude::*;
 use serde::{Deserialize, Serialize};
 use serde_json::{json, Value};
@@ -68,6 +68,10 @@ pub enum Mutn {
     LPlus,
     LMinus,
     BlindOther,
+    /// an artefact assembled without the secret key around the identity element: a proof with Abar = Bbar = O,
+    /// D = k*Bv and responses that cancel the recomputation; a signature under the identity public key
+    /// (secret key 0).  The draft's decoders refuse both.
+    ForgedIdentity(u16),
     /// one scalar of the artefact written as value + r (the same residue, not a canonical encoding)
     ScalarPlusR(u16),
     /// one more disclosed message than indexes
@@ -98,6 +102,7 @@ fn mutn() -> impl Strategy<Value = Mutn> {
         1 => Just(Mutn::LMinus),
         1 => Just(Mutn::BlindOther),
         2 => any::<u16>().prop_map(Mutn::ScalarPlusR),
+        2 => any::<u16>().prop_map(Mutn::ForgedIdentity),
         1 => Just(Mutn::MsgSurplus),
         1 => any::<u16>().prop_map(Mutn::IndexSurplus),
         2 => any::<u16>().prop_map(Mutn::IndexRepeat),
@@ -280,6 +285,14 @@ pub fn diff<CS: BbsCiphersuite>(rep: &Report, ck: &str, op: &Op) -> D {
                     sb[bit / 8] ^= 1 << (bit % 8)
                 }
                 Mutn::ZeroScalar(_) => sb[48..].iter_mut().for_each(|x| *x = 0),
+                Mutn::ForgedIdentity(_) => {
+                    // anybody can sign under the identity public key: the secret key is 0
+                    if let Ok(f) = r.sign(&Scalar::ZERO, &G2Projective::IDENTITY, h.as_deref().unwrap_or(b""), &ms) {
+                        sb = f.to_vec();
+                        pkb = vec![0u8; 96];
+                        pkb[0] = 0xc0;
+                    }
+                }
                 Mutn::ScalarPlusR(_) => {
                     if let Some(a) = plus_r(&sb[48..80]) {
                         sb[48..80].copy_from_slice(&a)
@@ -333,6 +346,20 @@ pub fn diff<CS: BbsCiphersuite>(rep: &Report, ck: &str, op: &Op) -> D {
                 Mutn::MsgAdd => {
                     dm.push(b"extra".to_vec());
                     idx.push(l);
+                }
+                Mutn::ForgedIdentity(i) => {
+                    let api = r.api_id();
+                    let hb = h.clone().unwrap_or_default();
+                    let phb = p.clone().unwrap_or_default();
+                    if let (Ok(gens), Ok(cms)) = (r.create_generators(l + 1, &api), r.msgs_to_scalars(&dm, &api)) {
+                        if let Ok(domain) = r.domain(&kp.public_key().0, &gens[0], &gens[1..], &hb, &api) {
+                            let bv = r.bv(&gens, &domain, &idx, &cms);
+                            let k = Scalar::from(2 + *i as u64);
+                            let o = G1Projective::IDENTITY;
+                            let fp = crate::props::c04::assemble(&r, &kp.public_key().0, &gens, &hb, &phb, &idx, &cms, &api, o, o, Some(Scalar::ZERO), bv * k, Some(k), &mut st);
+                            pb = fp.to_bytes();
+                        }
+                    }
                 }
                 Mutn::MsgSurplus => dm.push(b"never signed".to_vec()),
                 Mutn::IndexSurplus(i) => {
@@ -731,7 +758,7 @@ pub fn run(ctx: &Ctx, rep: &Report) -> Meta {
     run_cases(ctx, rep, "schedules", ctx.tier.pick(48, 400), 60, schedule_strat, |s| run_schedule(rep, "schedules", s));
     Meta {
         rule: "generated operations: KeyGen/SkToPk (ikm 0..200 octets, key_info up to 65536, key_dst up to 300 or None), histories of create_generators(count, api_id) calls (count 0..=64 quick / 1100 thorough; api_id in {None, empty, both API ids, BLIND_-prefixed, random ASCII}), \
-               hash_to_scalar (dst up to 400 octets), messages_to_scalars, Sign, and verifier decisions on honest and mutated artefacts (message / header / ph / pk edits, bit flips, index shifts, whole-scalar framing edits, zero scalars, a scalar written as value + r, identity points, trailing bytes, L+-1, other blinding factor, list shapes of the disclosed data: one more message than indexes, one more (unlisted) index than messages, a second entry under an index that is already listed) \
+               hash_to_scalar (dst up to 400 octets), messages_to_scalars, Sign, and verifier decisions on honest and mutated artefacts (message / header / ph / pk edits, bit flips, index shifts, whole-scalar framing edits, zero scalars, a scalar written as value + r, artefacts forged around the identity element (proof with Abar = Bbar = O and cancelling responses, signature under the identity public key), identity points, trailing bytes, L+-1, other blinding factor, list shapes of the disclosed data: one more message than indexes, one more (unlisted) index than messages, a second entry under an index that is already listed) \
                for verify, proof_verify, blind_sign's commitment validation, verify_blind_sign, blind_proof_verify; proofs and commitments made by the library must be accepted by the reference and vice versa; \
                oracle: byte equality of outputs and equality of Ok/Err decisions with the independent reference model, which must first reproduce every fixture; \
                size sweep: Sign octets, proof and blind round trips for every L in 0..=72 (quick) / 0..=260 (thorough); every message length 0..=600 / 2100 through messages_to_scalars, every header length 0..=1100 through Sign, every hash_to_scalar input length 0..=300, every interface-identifier length 190..=262 through messages_to_scalars and create_generators; a third of the operations after a warm-up history; schedules: lists of such operations executed by 2, 4 or 16 threads released from a barrier in rotated orders; non-trivial = every generated operation (none coincides with a fixture); evaluations = compared outputs / decisions"
